@@ -232,7 +232,9 @@ def run_config(ctx, rep, cfg):
     # slot functions: R1/R3/R4/R5 with the dispatcher's contract (object already checked)
     nslot = 0
     disp = {}
-    for name, f, c, decl in pubs:
+    # a slot function is checked against the contract of the public function that is its dispatcher
+    # (init may additionally call other slots, e.g. set_counter: those calls do not define the contract)
+    for name, f, c, decl in sorted(pubs, key=lambda x: x[2]["kind"] in ("init", "cleanup")):
         s = an.summaries[f.key]
         for (iid, st, idx, targets) in s.indirect:
             for tk in targets:
